@@ -96,12 +96,12 @@ class C16(CheckBase):
         for i in range(nfiles):
             while rng.chance(0.3):
                 hist.append({'op': rng.choice(['first', 'physical'])})
-            kind = rng.weighted([(5, 'single'), (4, 'interleaved'), (1, 'mmb'), (1, 'hfe1'), (1, 'hfe2'), (1, 'mfm')])
+            kind = rng.weighted([(5, 'single'), (4, 'interleaved'), (3, 'two-sided'), (1, 'mmb'), (1, 'hfe1'), (1, 'hfe2'), (1, 'mfm')])
             if kind == 'mmb' and 'mmb' in kinds_used:
                 kind = 'single'
             kinds_used.add(kind)
             ent = {'op': 'file', 'kind': kind, 'name': 'i%d' % i}
-            if kind in ('single', 'interleaved', 'mmb'):
+            if kind in ('single', 'interleaved', 'two-sided', 'mmb'):
                 im = dfswork.gen_image(rng, kind=kind, img_id=i + 1)
                 # unique titles
                 for si, s in enumerate(im['surfaces']):
